@@ -15,6 +15,7 @@
 #include "Stream/SliceReader.h"
 #include <cstring>
 #include <memory>
+#include <set>
 #include <stdexcept>
 #include <unordered_set>
 
@@ -121,8 +122,14 @@ struct MapStream : Family {
 		bool bigMap = r.chance(1, thorough ? 20 : 120);
 		if (bigMap) { lgw = r.range(7, 9); h = (40000u >> lgw) + r.below(60); } // tile block above the 128 KiB stream-copy chunk
 		while ((h << lgw) > (thorough || bigMap ? 70000u : 9000u)) h /= 2;
+		// rarely: a collection whose COUNT sits on a boundary only large files reach - tile arrays around multiples of 2^16..2^18
+		// tiles, 2^16 tileset sources or tile mappings
+		uint64_t hugeKind = r.chance(1, thorough ? 150 : 300) ? 1 + r.below(3) : 0;
+		uint64_t hugeCount = 0;
+		if (hugeKind == 1) { lgw = r.range(9, 10); uint64_t blockTiles = 1ull << r.range(16, 18), j = r.range(1, 2); h = ((blockTiles * j) >> lgw) + r.below(5) - 2 + (r.chance(1, 2) ? 0 : r.below(40)); if ((h << lgw) > 600000) h = 600000 >> lgw; }
+		else if (hugeKind) { static const uint64_t HC[] = {65535, 65536, 65537, 65600}; hugeCount = HC[r.below(4)]; }
 		static const int64_t SG[] = {0, 0, 1, 2, -1, 256, 0x7fffffff};
-		m.set("seed", hex64(r.next())).set("lgw", lgw).set("h", h).set("nsrc", r.chance(1, 4) ? 0 : r.chance(1, 40) ? r.range(500, 540) : r.below(7)).set("nmap", r.chance(1, 4) ? 0 : r.below(21)).set("nter", r.chance(1, 3) ? 0 : r.below(thorough ? 20 : 5))
+		m.set("seed", hex64(r.next())).set("lgw", lgw).set("h", h).set("nsrc", hugeKind == 2 ? hugeCount : r.chance(1, 4) ? 0 : r.chance(1, 40) ? r.range(500, 540) : r.below(7)).set("nmap", hugeKind == 3 ? hugeCount : r.chance(1, 4) ? 0 : r.below(21)).set("nter", r.chance(1, 3) ? 0 : r.below(thorough ? 20 : 5))
 		 .set("ngroups", r.chance(1, 3) ? 0 : r.below(8)).set("saved", std::to_string(SG[r.below(7)])).set("tag", r.chance(1, 2) ? 0x1011 : r.chance(1, 2) ? 0x1010 : 0x1010 + r.below(0xfffff000u)).set("trailing", r.chance(1, 2) ? 0 : r.below(30)).set("wrapgroups", r.chance(1, 6) ? 1 : 0);
 		p.world.push_back(m);
 		size_t nops = static_cast<size_t>(r.range(2, thorough ? 40 : 20));
@@ -269,6 +276,9 @@ struct MapDamage : Family {
 		bool saved = r.chance(1, 4);
 		Line m = mkline("world", "map");
 		uint64_t lgw = r.below(saved ? 3 : 6), h = r.below(saved ? 4 : 9);
+		// one world in eight is LARGE (tile array around a multiple of 2^16..2^18 tiles): swept at selected crash points only
+		bool large = r.chance(1, 8);
+		if (large) { lgw = r.range(9, 10); uint64_t blockTiles = 1ull << r.range(16, 18), j = r.range(1, 2); h = ((blockTiles * j) >> lgw) + r.below(5) - 2 + (r.chance(1, 2) ? 0 : r.below(40)); if ((h << lgw) > 600000) h = 600000 >> lgw; }
 		m.set("seed", hex64(r.next())).set("lgw", lgw).set("h", h).set("nsrc", r.below(4)).set("nmap", r.below(4)).set("nter", r.below(saved ? 2 : 3)).set("ngroups", saved ? 0 : r.below(4)).set("saved", saved ? 1 : 0)
 		 .set("tag", r.chance(1, 2) ? 0x1011 : 0x1010 + r.below(100)).set("trailing", r.chance(1, 2) ? 0 : r.below(10));
 		p.world.push_back(m);
@@ -278,7 +288,7 @@ struct MapDamage : Family {
 			u.set("count", zero ? 0 : 1 + r.below(100)).set("size", zero ? r.below(300) : 120).set("n1", r.below(3)).set("n2", r.below(5)).set("nextfree", r.below(3)).set("firstfree", r.below(3)).set("seed", hex64(r.next()));
 			p.world.push_back(u);
 		}
-		p.damage.push_back(mkline("damage", "all"));
+		p.damage.push_back(mkline("damage", large ? "large" : "all"));
 		p.ops.push_back(mkline("op", "read"));
 		return p;
 	}
@@ -299,6 +309,19 @@ struct MapDamage : Family {
 		bool thorough = plan.envu("thorough", 0) != 0;
 		std::vector<Line> variants;
 		if (plan.damage.empty()) variants.push_back(mkline("damage", "none"));
+		else if (plan.damage[0].verb == "large") {
+			// selected crash points of a large file: around the end of the consumed portion and around every multiple of 64 KiB
+			// (a block-wise reader's boundaries), with and without the offset at which the tile array starts
+			variants.push_back(mkline("damage", "none"));
+			std::set<size_t> cuts;
+			auto cut = [&](uint64_t k) { if (k < valid.size()) cuts.insert(static_cast<size_t>(k)); };
+			for (uint64_t d : {1, 2, 3, 4, 5, 8, 16, 1024, 4096, 65536}) if (consumed > d) cut(consumed - d);
+			size_t tileStart = headerLen < valid.size() ? (saved ? ref::kSavedGameSkip : 0) + 16 : 0;
+			for (uint64_t k = 65536; k < consumed + 65536; k += 65536) for (int64_t d : {-1, 0, 1}) { cut(k + static_cast<uint64_t>(d)); cut(k + tileStart + static_cast<uint64_t>(d)); }
+			while (cuts.size() > 160) cuts.erase(std::next(cuts.begin(), static_cast<long>(mix64(plan.seed, cuts.size()) % cuts.size())));
+			for (size_t k : cuts) { Line l = mkline("damage", "truncate"); l.set("k", k); variants.push_back(l); }
+			for (auto& f : fields) if (f.name == "lgW" || f.name == "H" || f.name == "nSrc") for (const char* v : {"+1", "-1"}) { Line l = mkline("damage", "subst"); l.set("field", f.name).set("value", v); variants.push_back(l); }
+		}
 		else if (plan.damage[0].verb != "all") variants = plan.damage;
 		else {
 			variants.push_back(mkline("damage", "none"));
